@@ -502,15 +502,32 @@ class Sut(object):
             self.flags.add('copy')
         elif k == 'invalid':
             before = [serial_r(x) for x in self.real]
+            path_ = op['path']
+            if '@SEG' in path_:
+                # a designator with element 00 or component 0 on a segment that is there: no such place
+                segs_ = [c for c in rnode.children if c.type == 'seg']
+                if not segs_:
+                    return
+                path_ = path_.replace('@SEG', segs_[0].id)
+                for target in (rnode, segs_[0]):
+                    try:
+                        target.set_value(path_, 'Q')
+                    except Exception:
+                        pass
+                    try:
+                        target.set_value(path_[len(segs_[0].id):], 'Q') if target is segs_[0] else None
+                    except Exception:
+                        pass
+                self.flags.add('designator-zero')
             for fn in ('get_value', 'exists', 'count', 'first', 'delete_node'):
                 try:
-                    r = getattr(rnode, fn)(op['path'])
+                    r = getattr(rnode, fn)(path_)
                     if fn == 'select':
                         list(r)
                 except Exception:
                     pass
             if [serial_r(x) for x in self.real] != before:
-                raise Violation('invalid-path-changed-tree', op['path'])
+                raise Violation('invalid-path-changed-tree', path_)
         self.check_all(op)
 
 
@@ -798,7 +815,7 @@ def make_machine(text, fname, loop_id, which, gen_seed):
         def copy(self, t):
             self.sut.apply(dict(op='copy', t=t))
 
-        @rule(t=st.integers(0, 1), p=st.sampled_from(['', '/', '..', '../..', 'ZZZ', '9999/', '[X]01', 'NM1[', '9999/NM101', '../../../NM101', 'ZZ999-99', '-1', 'REF[XX]02']))
+        @rule(t=st.integers(0, 1), p=st.sampled_from(['', '/', '..', '../..', 'ZZZ', '9999/', '[X]01', 'NM1[', '9999/NM101', '../../../NM101', 'ZZ999-99', '-1', 'REF[XX]02', '@SEG00', '@SEG01-0', '@SEG02-0', '@SEG00', '@SEG03-0']))
         def invalid(self, t, p):
             self.sut.apply(dict(op='invalid', t=t, path=p))
 
